@@ -82,6 +82,36 @@ def part_a(res, rng, exe, drv, n_inst, stats):
         res.violation({'what': 'harness c09_rect crashed during the replay run', 'rc': rc, 'stderr': err[-1500:],
                        'command': cmds[len(out)] if len(out) < len(cmds) else None})
         return dt
+    # public API with Variables that share one id (ids are "useful in log files" only, variable.h:51): valid input
+    dcmds, dkeys = [], []
+    for k, inst in enumerate(insts[:max(60, len(insts) // 4)]):
+        for mode in (0, 1, 2):
+            for (pk, pd) in PRIMINGS[:3]:
+                c = L.cmd_G_impl(inst, mode, pk, pd)
+                dcmds.append('G %d %s' % (mode + 10, c.split(' ', 2)[2]))
+                dkeys.append((k, mode, pk, pd))
+    rc, dout, err, _ = L.run_lines([exe], dcmds)
+    dgroups = {}
+    for key, cmd, line in zip(dkeys, dcmds, dout):
+        dgroups.setdefault(key[:2], []).append((key, cmd, line))
+    dup_reported = False
+    for (k, mode), runs in dgroups.items():
+        stats['a_dupid_groups'] += 1
+        pay = [' '.join(r[2].split(' # ')[0].split()[2:]) for r in runs]
+        if len(set(pay)) > 1:
+            stats['a_dupid_differ'] += 1
+            if not dup_reported:
+                dup_reported = True
+                a = next(i for i in range(len(pay)) if pay[i] != pay[0])
+                res.violation({'what': 'generateX/YConstraints called through the public API with Variables that all have id 0: same call, same input, '
+                                       'one process, result depends on the heap state (CmpNodePos still falls back to the Node address when the ids are equal)',
+                               'call': L.MODES[mode] + ', every Variable::id == 0', 'input': insts[k].to_json(),
+                               'priming_a': 'malloc(56) x %d freed %s' % (runs[0][0][2], ['-', 'ascending', 'descending'][runs[0][0][3]]),
+                               'priming_b': 'malloc(56) x %d freed %s' % (runs[a][0][2], ['-', 'ascending', 'descending'][runs[a][0][3]]),
+                               'result_a': describe(runs[0][2]), 'result_b': describe(runs[a][2]),
+                               'equal_centres_present': fd_classifier(insts[k]),
+                               'replay': 'printf "%s\\n%s\\n" | build/bin/c09_rect-exc-*' % (runs[0][1], runs[a][1])},
+                              fingerprint='scanline_addr_tiebreak_dup_ids' if fd_classifier(insts[k]) else None)
     groups = {}
     for key, cmd, line in zip(keys, cmds, out):
         groups.setdefault((key[0], key[1]), []).append((key, cmd, line))
@@ -180,16 +210,27 @@ def parse_V(line):
 
 def part_b(res, rng, exe, n_inst, stats):
     cmds, meta = [], []
-    for k in range(n_inst):
-        des, ws, cs, cyc = vpsc_instance(rng)
+    corpus = []
+    cp = os.path.join(C.VERIF, 'corpus', 'c20_vpsc_permute.json')
+    if os.path.exists(cp):
+        d = json.load(open(cp))
+        corpus.append(([F(x) for x in d['desired']], [F(x) for x in d['weights']],
+                       [(l, r, F(g), e) for l, r, g, e in d['constraints_l_r_gap_eq']], d['variable_permutation'], d['constraint_order']))
+    for k in range(n_inst + len(corpus)):
+        if k < len(corpus):
+            des, ws, cs, perm0, corder0 = corpus[k]
+            cyc = False
+        else:
+            des, ws, cs, cyc = vpsc_instance(rng)
+            perm0 = corder0 = None
         n = len(des)
         t = F(rng.range(-2 ** 16, 2 ** 16), 1024)
-        perm = rng.shuffle(range(n))           # new index of variable i is perm[i]
+        perm = perm0 if perm0 else rng.shuffle(range(n))           # new index of variable i is perm[i]
         inv = [0] * n
         for i, p in enumerate(perm):
             inv[p] = i
         pdes, pws = [des[inv[j]] for j in range(n)], [ws[inv[j]] for j in range(n)]
-        corder = rng.shuffle(range(len(cs)))
+        corder = corder0 if corder0 else rng.shuffle(range(len(cs)))
         pcs = [(perm[cs[c][0]], perm[cs[c][1]], cs[c][2], cs[c][3]) for c in corder]
         base = cmd_V(des, ws, cs)
         cmds += [base, 'J %d %d' % (rng.range(10, 400), rng.next() % 10 ** 9), base,
@@ -231,10 +272,20 @@ def part_b(res, rng, exe, n_inst, stats):
         if not unsat and permd is not None and not any(permd[1]):
             back = [permd[0][perm[i]] for i in range(len(des))]
             if any(abs(a - b) > tol for a, b in zip(first[0], back)):
-                res.violation({'what': 'IncSolver: result depends on the numbering / order of variables and constraints (1e-9)',
+                # classifier: both answers feasible and of different cost => one run stopped at a non-optimal point
+                def feas(x):
+                    return all((x[r] - x[l] - g >= -F(1, 10 ** 7)) and (not e or abs(x[r] - x[l] - g) <= F(1, 10 ** 7)) for l, r, g, e in cs)
+                c1 = sum(w * (x - dd) ** 2 for w, x, dd in zip(ws, first[0], des))
+                c2 = sum(w * (x - dd) ** 2 for w, x, dd in zip(ws, back, des))
+                subopt = feas(first[0]) and feas(back) and abs(c1 - c2) > F(1, 10 ** 9) * max(1, c1)
+                stats['b_permute_differs'] += 1
+                res.violation({'what': 'IncSolver: result depends on the numbering / order of variables and constraints (1e-9)'
+                                       + ('; both results are feasible but their costs differ, so one of them is not the optimum' if subopt else ''),
                                'input': inp, 'variable_permutation': perm, 'constraint_order': corder, 'result': [float(x) for x in first[0]],
-                               'result_permuted_mapped_back': [float(x) for x in back],
-                               'replay': 'printf "%s\\n%s\\n" | build/bin/c20_replay-plain-*' % (cmds[5 * k], cmds[5 * k + 4])})
+                               'result_permuted_mapped_back': [float(x) for x in back], 'cost': float(c1), 'cost_permuted': float(c2),
+                               'both_feasible': feas(first[0]) and feas(back), 'fingerprint_classifier': 'both feasible, no unsat flag, costs differ',
+                               'replay': 'printf "%s\\n%s\\n" | build/bin/c20_replay-plain-*' % (cmds[5 * k], cmds[5 * k + 4])},
+                              fingerprint='vpsc_order_dependent_suboptimal' if subopt else None)
             else:
                 stats['b_permute_ok'] += 1
     return dt
@@ -399,7 +450,7 @@ def run(tier):
     exe = C.build_harness('c20_replay', ['libvpsc', 'libavoid'], 'plain', extra_srcs=[os.path.join(C.COLA, 'libcola', 'pseudorandom.cpp')])
     stats = {k: 0 for k in ('a_groups', 'a_runs', 'a_differ', 'a_prime_not_verified', 'b_instances', 'b_threw', 'b_unsat', 'b_translate_ok',
                             'b_translate_bit_exact', 'b_unsat_translate_differs', 'b_permute_ok', 'c_scenes', 'c_orthogonal', 'c_threw',
-                            'c_translate_ok', 'c_cost_comparisons', 'p_streams', 'a_translated')}
+                            'c_translate_ok', 'c_cost_comparisons', 'p_streams', 'a_translated', 'a_dupid_groups', 'a_dupid_differ', 'b_permute_differs')}
     ta = part_a(res, rng.fork(), exe_r, drv, 1500 if thorough else 400, stats)
     tb = part_b(res, rng.fork(), exe, 6000 if thorough else 1500, stats)
     tc = part_c(res, rng.fork(), exe, 1200 if thorough else 250, stats)
@@ -446,8 +497,8 @@ META = {
                   'Cola/PseudoRandomModel.v (validated by exact correspondence on every run, not derived from the source); extraction (ExtrOcamlBasic) and '
                   'the OCaml/C++ drivers; glibc malloc behaviour used for the priming (verified at run time). Replay-only (validation, not proof): IncSolver '
                   'twice / translated (1e-9; bit-exact is not claimed because block positions are weighted means) / permuted; libavoid routes twice, '
-                  'translated exactly, cost under the 8 symmetries and under permuted insertion order, on separated integer rectangles. Residual of F-d: '
-                  'CmpNodePos still falls back to the address when two Variables have equal ids (callers in /repo use distinct ids). Dependence on '
+                  'translated exactly, cost under the 8 symmetries and under permuted insertion order, on separated integer rectangles. Residual of F-d, '
+                  'exhibited on every run and registered as known finding scanline_addr_tiebreak_dup_ids: CmpNodePos still falls back to the address when two Variables share an id (legal input; callers in /repo use distinct ids). Dependence on '
                   'uninitialised memory can only be observed, not proved absent.',
     'technique': 'Coq proof over hand-written + cpp2v-generated Gallina, correspondence, and in-process replay runs with allocator priming',
 }
